@@ -19,6 +19,7 @@ mod c13;
 mod c14;
 mod c15;
 mod c16;
+mod c19;
 mod c20;
 
 fn main() {
@@ -76,6 +77,7 @@ fn main() {
         "c14" => c14::run(opts),
         "c15" => c15::run(opts),
         "c16" => c16::run(opts),
+        "c19" => c19::run(opts),
         "c20" => c20::run(opts),
         other => {
             eprintln!("unknown check {other}");
